@@ -234,7 +234,7 @@ LEVELS = {
         note='Trusted: Coq kernel, pyfacts.py, extraction + OCaml driver, Python harness.'),
     'C13': dict(
         text='Machine-checked Coq theorems on the processor state machine: shut-down refuses/keeps, failure effect, idempotent shutdown/restore, clock invariant, '
-             'uptime/utilisation unchanged by event actions and growing exactly with operational / processing time. One clause was false of the original code (C13_refuted.v), repaired (fix: f79706b).',
+             'uptime/utilisation unchanged by event actions and growing exactly with operational / processing time; a processor constructed while the simulation is in progress starts both clocks at its construction (C13_late_processor_clocks_start_at_creation). One clause was false of the original code (C13_refuted.v), repaired (fix: f79706b).',
         design_ref='DESIGN.md sections 0.3 and 8, C13', technique='Coq proof (state-machine lemmas + two-sided accounting invariant over all events and time advances) + lock-step correspondence with PartProcessor',
         note='Trusted: Coq kernel, pyfacts.py, extraction + OCaml driver, Python harness. Work-order window relies on C12 theorems.'),
     'C16': dict(
